@@ -15,7 +15,8 @@ def regf():
 
 def tasks():
     return [ContractTask(c, regf) for c in CONTRACTS if PROP in c.props and not c.inline] + \
-        [FuncTask("list-op-facts", dilq.list_facts_task, False, "model-validation")]
+        [FuncTask("seq-lemmas", dilq.seq_lemmas_task, True, "lemma"),
+         FuncTask("list-op-facts", dilq.list_facts_task, False, "model-validation")]
 
 
 TRUSTED = list(dilq.TRUSTED_COMMON) + [
